@@ -59,7 +59,9 @@ def _instances():
     from semantiva.pipeline import Pipeline
     from semantiva.trace.drivers.jsonl import JsonlTraceDriver
     from concurrent.futures import Future
-    n = {"nodes": 0, "processors": 0, "messages": 0, "pipelines": 0, "drivers": 0, "futures": 0}
+    from semantiva.core.semantiva_component import _SemantivaComponent
+    from semantiva.logger import Logger as _SvLogger
+    n = {"nodes": 0, "processors": 0, "messages": 0, "pipelines": 0, "drivers": 0, "futures": 0, "components": 0, "loggers": 0}
     # instances held as class attributes of registered (generated) classes are part of the class-registry residue
     # (finding F-C18-a: e.g. the generated context-processor node class stores its processor instance); they are
     # accounted to the registry count, not to the instance population
@@ -84,12 +86,16 @@ def _instances():
                 n["drivers"] += 1
             elif isinstance(o, Future):
                 n["futures"] += 1
+            elif isinstance(o, _SemantivaComponent):
+                n["components"] += 1        # data-IO objects (sources, sinks), user components: whatever the class holds it through
+            elif isinstance(o, _SvLogger):
+                n["loggers"] += 1
         except Exception:  # noqa - objects with odd __class__ behaviour
             pass
     return n
 
 
-def _reachable(roots, depth=9, limit=600000):
+def _reachable(roots, depth=9, limit=600000, closures=True):
     """ids of the objects reachable from `roots` through gc referents (classes and modules are not entered; of a
     function, classmethod or property only the closure cells are)"""
     import types
@@ -103,7 +109,7 @@ def _reachable(roots, depth=9, limit=600000):
             elif isinstance(o, property):
                 refs = [f for f in (o.fget, o.fset, o.fdel) if f is not None]
             elif isinstance(o, types.FunctionType):
-                refs = list(o.__closure__ or ()) + ([o.__dict__] if getattr(o, "__dict__", None) else [])
+                refs = (list(o.__closure__ or ()) if closures else []) + ([o.__dict__] if getattr(o, "__dict__", None) else [])
             else:
                 refs = gc.get_referents(o)
             for r in refs:
@@ -133,9 +139,18 @@ def _census(transports=()):
         if qs is not None:
             roots.append(qs)
     accounted = _reachable(roots)
+    # ... except component / logger INSTANCES that a registered class pins only through the closure of one of its functions:
+    # the known finding is about classes (and what they store as attributes), not about live objects captured per run
+    direct = _reachable(roots, closures=False)
+    from semantiva.core.semantiva_component import _SemantivaComponent
+    from semantiva.logger import Logger as _SvLogger
     for o in gc.get_objects():
         try:
             t = type(o)
+            if id(o) in accounted and id(o) not in direct and isinstance(o, (_SemantivaComponent, _SvLogger)) and not isinstance(o, type):
+                k = "closure-pinned:" + (getattr(t, "__module__", "") or "") + "." + getattr(t, "__qualname__", t.__name__)
+                out[k] = out.get(k, 0) + 1
+                continue
             if isinstance(o, type) or id(o) in accounted:
                 continue
             m = getattr(t, "__module__", "") or ""
@@ -438,13 +453,17 @@ def measure_launches(points):
         yaml.safe_dump(doc, f, sort_keys=False)
     res = {"samples": {}, "status": "ok"}
     done = 0
+    nlaunch = [0]
     try:
         for p in sorted(points):
             for _ in range(p - done):
                 out, err = io.StringIO(), io.StringIO()
                 with contextlib.redirect_stdout(out), contextlib.redirect_stderr(err):
                     try:
-                        cli.main(["run", path])
+                        nlaunch[0] += 1
+                        # every second launch is traced (its own trace directory): launch bookkeeping of the trace side too
+                        cli.main(["run", path] + (["--trace.driver", "jsonl", "--trace.output", os.path.join(tmp, "tr%d" % nlaunch[0])]
+                                                  if nlaunch[0] % 2 == 0 else []))
                     except SystemExit as ex:
                         if ex.code not in (0, None):
                             raise RuntimeError("launch exit code %r: %s" % (ex.code, err.getvalue()[-300:]))
@@ -452,7 +471,7 @@ def measure_launches(points):
             done = p
             gc.collect()
             loggers = [logging.getLogger()] + [l for l in logging.Logger.manager.loggerDict.values() if isinstance(l, logging.Logger)]
-            res["samples"][str(p)] = {"census": _census(), "inst": _instances(),
+            res["samples"][str(p)] = {"census": _census(), "inst": _instances(), "containers": _containers(),
                                       "log_handlers": sum(len(l.handlers) for l in loggers), "log_filters": sum(len(l.filters) for l in loggers),
                                       "total": sum(len(v) for v in _registry().values())}
     except Exception as ex:  # noqa
@@ -494,6 +513,14 @@ def launches_oracle(ck, thorough):
         if grow >= max(3, (int(b) - int(a)) // 3):
             ck.fail_input("C18:live-object-growth:%s:repeated-launches" % tname, "live %s objects accumulate with the number of launches in one process: "
                           "%d after %s launches, %d after %s" % (tname, sa["census"].get(tname, 0), a, sb["census"][tname], b), rep)
+    for cname in sorted(sb.get("containers") or {}):
+        if cname in ACCOUNTED_CONTAINERS:
+            continue
+        grow = sb["containers"][cname] - (sa.get("containers") or {}).get(cname, 0)
+        if grow >= max(2, (int(b) - int(a)) // 3):
+            ck.fail_input("C18:process-wide-container-growth:%s:repeated-launches" % cname,
+                          "the process-wide container %s grows with the number of launches in one process (every second launch traced): %d entries after %s launches, "
+                          "%d after %s" % (cname, (sa.get("containers") or {}).get(cname, 0), a, sb["containers"][cname], b), rep)
     return {"points": pts, "registered_classes": {p: r["samples"][str(p)]["total"] for p in pts},
             "log_handlers": {p: r["samples"][str(p)]["log_handlers"] for p in pts}}
 
@@ -768,9 +795,12 @@ def oracle(ck, case, r, reported):
                           "%d after job %d, %d after job %d" % (smp[a]["jobchannels"], a, smp[b]["jobchannels"], b)))
         ia, ib = smp[a].get("inst"), smp[b].get("inst")
         if ia and ib:
+            # ("components" / "loggers" are recorded but not judged here: data objects inside the retained messages (F-C18-b) and the
+            #  loggers of instances stored on registered classes (F-C18-a) are consequences of the known findings; what registered
+            #  classes pin through CLOSURES is judged by the census below)
             cats = ["nodes", "processors", "pipelines", "drivers", "futures"] + (["messages"] if way in ("fresh", "worker") else [])
             for cat in cats:
-                if ib[cat] > ia[cat]:
+                if ib.get(cat, 0) > ia.get(cat, 0):
                     found.append(("C18:live-instance-growth:%s:%s" % (cat, WAY_SIG[way]),
                                   "live %s instances grow with the number of runs (%s): %d after run %d, %d after run %d"
                                   % (cat, WAY_SIG[way], ia[cat], a, ib[cat], b)))
